@@ -39,8 +39,17 @@ impl<'a> CowArrayI16<'a> {
         ensures r.sp_src() == data@, r.sp_off() == offset, r.sp_len() == size
     { unimplemented!() }
 }
-/// little-endian u32 at a byte offset (ASSUMED denotation of nom's le_u32)
-pub uninterp spec fn le32_at(b: Seq<u8>, off: int) -> u32;
+/// little-endian u32 at a byte offset (what nom's le_u32 denotes)
+pub open spec fn le32_at(b: Seq<u8>, off: int) -> u32 {
+    (b[off] as u32) | ((b[off + 1] as u32) << 8) | ((b[off + 2] as u32) << 16) | ((b[off + 3] as u32) << 24)
+}
+/// dic/read/mod.rs::u32_parser = nom le_u32 (ASSUMED)
+#[verifier::external_body]
+fn u32_parser(input: &[u8]) -> (r: SudachiResult<(&[u8], u32)>)
+    ensures r is Ok <==> 4 <= input@.len(), r is Ok ==> r->Ok_0.1 == le32_at(input@, 0)
+{ unimplemented!() }
+#[verifier::external_body]
+fn slice_from<'a>(s: &'a [u8], a: usize) -> (r: &'a [u8]) requires a <= s@.len() ensures r@ == s@.subrange(a as int, s@.len() as int) { &s[a..] }
 /// dic/lexicon/mod.rs::u32_parser_offset = nom preceded(take(offset), le_u32) (ASSUMED)
 #[verifier::external_body]
 fn u32_parser_offset(input: &[u8], offset: usize) -> (r: SudachiResult<(&[u8], u32)>)
@@ -149,6 +158,18 @@ impl<'a> WordInfos<'a> {
 //@  ret r
 //@  spec
         ensures r.bytes@ == bytes@, r.offset == offset, r._word_size == _word_size, r.has_synonym_group_ids == has_synonym_group_ids
+//@end
+//@extract sudachi/src/dic/lexicon/word_infos.rs :: impl<'a> WordInfos<'a> :: fn word_id_to_offset
+//@  rw R13 1 custom
+//@  | &self\.bytes\[(self\.offset \+ \(4 \* word_id as usize\))\.\.\]
+//@  > slice_from(self.bytes, \1)
+//@  ret r
+//@  spec
+        // a VALID dictionary: the offset table (four bytes per word, from `offset`) lies inside the buffer - the slice panics otherwise
+        requires self.offset + 4 * word_id + 4 <= self.bytes@.len(), self.bytes@.len() <= 0x7fff_ffff_ffff_ffff
+        // C05 / C11: the record of word i is looked for at the i-th little-endian entry of the offset table, which is where
+        // LexiconWriter::write recorded the absolute position of that record (v_lexw: theorem_offset_points_at_record)
+        ensures r is Ok && r->Ok_0 == le32_at(self.bytes@, self.offset + 4 * word_id)
 //@end
 }
 
